@@ -2,7 +2,7 @@
    Only statements, [exact]s and [Print Assumptions] live here.
    Model: Model/Mangle.v (mangle.rs completely + FileName::get_components);
    decoder / Safe / Internal / classifier: Spec/MangleSpec.v. *)
-From Capy Require Import Common.Util Model.Mangle Spec.MangleSpec Proofs.MangleProofs Proofs.MangleCollide.
+From Capy Require Import Common.Util Model.Mangle Spec.MangleSpec Proofs.MangleProofs Proofs.MangleCollide Proofs.MangleExcept.
 
 (* The full-strength statement: two well-formed descriptors of different
    entities never get the same symbol.  FALSE of the unchanged code. *)
@@ -89,6 +89,26 @@ Theorem C27_collision_parts : forall e d1 d2 p1 p2 s,
   mangle e d1 = Ok s -> mangle e d2 = Ok s -> Forall2 part_rel p1 p2.
 Proof. exact collision_parts. Qed.
 Print Assumptions C27_collision_parts.
+
+(* EXCEPT-KNOWN: every collision of the model between well-formed descriptors of
+   different entities (any paths, names, indices) is explained by the known
+   mechanisms: the extracted classifier returns a non-empty list without the
+   code 0 ("unexplained"), i.e. only 1 digit-escape, 2 dot-dash, 3 src-drop,
+   4 mod-src-drop, 5 capy-strip. *)
+Theorem C27_except_known : forall e d1 d2 s,
+  WF e d1 = true -> WF e d2 = true ->
+  mangle e d1 = Ok s -> mangle e d2 = Ok s ->
+  entity d1 <> entity d2 ->
+  explain_collision e d1 d2 <> [] /\ ~ In 0%N (explain_collision e d1 d2).
+Proof. exact collision_explained. Qed.
+Print Assumptions C27_except_known.
+
+(* the same in "known_class = None -> ok" form *)
+Theorem C27_no_known_class_no_collision : forall e d1 d2 s,
+  WF e d1 = true -> WF e d2 = true -> entity d1 <> entity d2 ->
+  explain_collision e d1 d2 = [] -> mangle e d1 = Ok s -> mangle e d2 <> Ok s.
+Proof. exact no_known_class_no_collision. Qed.
+Print Assumptions C27_no_known_class_no_collision.
 
 (* the extracted classifier names exactly one mechanism on each witness *)
 Theorem C27_classifier_on_witnesses :
